@@ -83,7 +83,7 @@ func extractEnv(p *pkgs, f *facts) {
 	sort.Strings(stripped)
 	var lits []string
 	for _, s := range stripped {
-		lits = append(lits, leanBytes(s))
+		lits = append(lits, leanBytesOfString(s))
 	}
 	f.lean = append(f.lean, fmt.Sprintf("def env : Env.Params := ⟨%s, [%s]⟩", leanBool(guarded), strings.Join(lits, ", ")))
 	has := map[string]bool{}
@@ -98,8 +98,8 @@ func extractEnv(p *pkgs, f *facts) {
 		"hostEnvShape": filterShape, "stripsInheritedControls": stripsAll})
 }
 
-// leanBytes renders a Go string as a Lean `List UInt8` literal.
-func leanBytes(s string) string {
+// leanBytesOfString renders a Go string as a Lean `List UInt8` literal.
+func leanBytesOfString(s string) string {
 	var bs []string
 	for i := 0; i < len(s); i++ {
 		bs = append(bs, strconv.Itoa(int(s[i])))
